@@ -9,8 +9,24 @@ TB = ("Coq 8.16.1 kernel; hand-written Gallina model tied to /repo by the corres
       "OCaml runner/main.ml; Python harness. See DESIGN.md section 7.")
 
 CLAIMED = {
+ "C13": dict(
+   text="20 theorems about a Gallina model of quantum/tk.py (to_tk main loop with the qubit / bit register lists, "
+        "prepare_qubits / prepare_bits, measure_qubits, swaps, add_gate, post-selection dict and post-processing; from_tk "
+        "with make_units_adjacent): for every prefix of every export run the qubit register list is the injective, "
+        "increasing image of the live qubit wires (register invariant), the command list equals the relabelled "
+        "wire-labelled trace of the circuit (gates and measurements, in order, on the registers carrying the wires), "
+        "rotation angles round-trip exactly (x2, mod 4, /2 = phase mod 2), prepare_bits renames the post-selection "
+        "dict exactly as it renames bit indices, from_tk always returns a well-typed circuit from Ty() to the "
+        "post-processing codomain; refutation witnesses for the pinned defects and soundness of the repairs on them.  "
+        "Partial: the distribution statement itself (simulate . to_tk = mixed evaluation) and the bit-routing / "
+        "import-trace statements are Definitions evaluated through the model on every generated case, not theorems; "
+        "they are decided per case by the numerical oracles (own tket simulator vs eval(mixed=True), mock backend, "
+        "round trip).  Tie to /repo: exact comparison of exported tket circuits modulo commutation on disjoint units "
+        "and of imported diagrams.",
+   design="6/C13", engine="coq-tk",
+   technique="Coq proof (register invariant + trace refinement by induction over layers) + exact correspondence vs pytket export/import + simulation oracles"),
  "C12": dict(
-   text="19 theorems over the abstract *-ring (executed in Cyc32) about a Gallina model of cqmap.CQMap and cqmap.Functor: "
+   text="20 theorems over the abstract *-ring (executed in Cyc32) about a Gallina model of cqmap.CQMap and cqmap.Functor: "
         "every well-typed pure circuit evaluates mixed to the doubled map conj(U) (x) U of its pure evaluation (per box and "
         "through CQMap.tensor); CQMap.measure has the Born closed form for every n, measuring a doubled state gives "
         "conj(a) a; discard is the trace / marginal; Encode = Measure-dagger and MixedState = Discard-dagger for all flag "
@@ -253,6 +269,7 @@ man = {
    ("coq-param", "coq/Param", "Gallina model of parametrised boxes (polynomial phases), subs / lambdify / free_symbols + Coq theorems + extracted runner"),
    ("coq-grad", "coq/Grad", "Gallina model of diagrammatic gradients on the Param model + Coq theorems + extracted runner"),
    ("coq-cq", "coq/CQ", "Gallina model of classical-quantum maps and mixed circuit evaluation over the abstract *-ring + Coq theorems + extracted runner"),
+   ("coq-tk", "coq/Tk", "Gallina model of the tket export / import (register bookkeeping, post-selection, post-processing, make_units_adjacent) + Coq theorems + extracted runner"),
    ("coq-zx", "coq/ZX", "Gallina model of gate2zx / circuit2zx and the standard ZX interpretation over the abstract *-ring + Coq theorems + extracted runner"),
    ("coq-tensor", "coq/Tensor", "Gallina model of numpy primitives and discopy.tensor.Tensor over Gaussian integers + Coq theorems + extracted runner"),
  ]],
